@@ -20,6 +20,7 @@ Alphabet ==
   {Call("edit", a, t, "", <<>>, <<>>, "") : a \in {1, 2}, t \in {"create", "last", "unknown"}} \cup
   {CallF("editsame", 2, t, "", <<>>, <<>>, "", wf) : t \in {"create", "last"}, wf \in BOOLEAN} \cup
   {Call("title", a, "", "", <<>>, <<>>, "") : a \in {1, 2}} \cup
+  {Call("titlestale", 2, "", "", <<>>, <<>>, "")} \cup
   {Call("status", a, "", s, <<>>, <<>>, "") : a \in {1, 2}, s \in {"open", "closed"}} \cup
   ({Call("labelf", 2, "", "", ad, rm, "") : ad \in Adds, rm \in Rems} \ {Call("labelf", 2, "", "", <<>>, <<>>, "")}) \cup
   ({Call("label", 2, "", "", ad, rm, "") : ad \in Adds, rm \in Rems} \ {Call("label", 2, "", "", <<>>, <<>>, "")}) \cup
@@ -28,7 +29,7 @@ Alphabet ==
 
 SmallAlphabet ==
   {Call("comment", 2, "", "", <<>>, <<>>, ""), Call("edit", 2, "create", "", <<>>, <<>>, ""), Call("edit", 1, "last", "", <<>>, <<>>, ""), CallF("editsame", 2, "create", "", <<>>, <<>>, "", TRUE),
-   Call("title", 2, "", "", <<>>, <<>>, ""), Call("status", 1, "", "closed", <<>>, <<>>, ""),
+   Call("title", 2, "", "", <<>>, <<>>, ""), Call("titlestale", 2, "", "", <<>>, <<>>, ""), Call("status", 1, "", "closed", <<>>, <<>>, ""),
    Call("labelf", 2, "", "", <<2, 1>>, <<>>, ""), Call("labelf", 2, "", "", <<1, 1>>, <<1>>, ""), Call("label", 2, "", "", <<2, 1>>, <<1>>, ""),
    Call("label", 2, "", "", <<>>, <<1>>, ""), Call("meta", 1, "last", "", <<>>, <<>>, "k1"), Call("meta", 1, "create", "", <<>>, <<>>, "k0"),
    Call("noop", 2, "", "", <<>>, <<>>, "")}
@@ -44,7 +45,7 @@ InvWellFormed == WellFormed(S)
 InvRepeatable == Compile(Empty, calls) = S                     \* compiling from scratch = maintaining incrementally
 InvTitleStatus == S.title > 0 /\ S.status \in {"open", "closed"}
 InvOneItemPerStateChange ==
-  Len(S.timeline) = Cardinality({i \in DOMAIN calls : calls[i].k \in {"create", "comment", "title", "status", "labelf"}})
+  Len(S.timeline) = Cardinality({i \in DOMAIN calls : calls[i].k \in {"create", "comment", "title", "titlestale", "status", "labelf"}})
                     + (S.n - Cardinality({i \in DOMAIN calls : calls[i].k # "label"}))   \* label calls that produced an operation
 
 Emit == PrintT(ToJson([calls |-> calls, exp |-> S]))
